@@ -8,6 +8,7 @@ import Ark.Proofs.GenBridge.BookArchetype
 import Ark.Proofs.GenBridge.BookCache
 import Ark.Props.C16Hist
 import Ark.Props.C16Register
+import Ark.Props.C16Rel
 
 namespace Ark.Props.C16
 open Ark
@@ -146,5 +147,54 @@ theorem rereg_observers_can_be_registered_again : type_of% @Ark.Props.C16Registe
 
 /-- finding (model level): a filter whose first relation names a non-column of a kept relation archetype panics before and after Reset but not on a new world; not constructible through the typed API -/
 theorem rereg_bogus_relation_filter : type_of% @Ark.Props.C16Register.bogus_relation_filter := @Ark.Props.C16Register.bogus_relation_filter
+
+
+/-! ### Reset ≡ new world for the relation machines (Props/C16Rel) -/
+
+/-- **C16, second sentence, with relation components**: for every `pre`, `post` (together < 2^16 operations of the relation machine: new/add/remove/set-relations/set/remove-entity/copy/shrink/reset/filter definition, registration, un-registration/queries with fixed and per-call targets) the trace of `post` after `pre ++ [reset]` and after the registrations of `pre` on a NEW world of any capacities are equal output by output — returned handle or panic class; the visits of a query (entity, every value, every relation target) as a permutation -/
+theorem relhist_same_trace : type_of% @Ark.Props.C16Rel.same_trace := @Ark.Props.C16Rel.same_trace
+
+/-- … and after every prefix of `post` the two machine states are in simulation: equal specification, issued handles, registry, pool core, filter objects up to the cache ID; nothing is said about tables, table IDs, capacities or the cache -/
+theorem relhist_same_state_after_every_prefix : type_of% @Ark.Props.C16Rel.same_state_after_every_prefix := @Ark.Props.C16Rel.same_state_after_every_prefix
+
+/-- one step keeps the simulation, with equal outputs -/
+theorem relhist_same_step : type_of% @Ark.Props.C16Rel.same_step := @Ark.Props.C16Rel.same_step
+
+/-- the simulation holds right after the reset -/
+theorem relhist_related_after_reset : type_of% @Ark.Props.C16Rel.related_after_reset := @Ark.Props.C16Rel.related_after_reset
+
+/-- hence the two worlds agree on the components, values and relation targets of every entity ID, on `alive` of every issued handle and on the next handle -/
+theorem relhist_same_worlds : type_of% @Ark.Props.C16Rel.same_worlds := @Ark.Props.C16Rel.same_worlds
+
+/-- the same query on two worlds in simulation is rejected with the same class or visits the same records up to order -/
+theorem relhist_same_query : type_of% @Ark.Props.C16Rel.same_query := @Ark.Props.C16Rel.same_query
+
+/-- the outcome of a call (returned handle or panic class, in closed form) is a function of the specification and the next pool handle -/
+theorem relhist_outcome_from_spec : type_of% @Ark.Props.C16Rel.outcome_from_spec := @Ark.Props.C16Rel.outcome_from_spec
+
+/-- the same with `Exchange` (machine of C01Xchg) -/
+theorem relhist_same_trace3 : type_of% @Ark.Props.C16Rel.same_trace3 := @Ark.Props.C16Rel.same_trace3
+
+/-- … simulation after every prefix, with `Exchange` -/
+theorem relhist_same_state3 : type_of% @Ark.Props.C16Rel.same_state3 := @Ark.Props.C16Rel.same_state3
+
+/-- … agreement of the worlds, with `Exchange` -/
+theorem relhist_same_worlds3 : type_of% @Ark.Props.C16Rel.same_worlds3 := @Ark.Props.C16Rel.same_worlds3
+
+/-- the outcome of `Exchange` from the specification -/
+theorem relhist_xchg_outcome_from_spec : type_of% @Ark.Props.C16Rel.xchg_outcome_from_spec := @Ark.Props.C16Rel.xchg_outcome_from_spec
+
+/-- non-vacuity: in the demo the reset world and the new world place the same entities in different tables (LIFO recycling of freed tables) -/
+theorem relhist_demo_tables_differ : type_of% @Ark.Props.C16Rel.demo_tables_differ := @Ark.Props.C16Rel.demo_tables_differ
+
+/-- non-vacuity: the two demo traces of 24 operations differ as lists (archetype order of a query) and satisfy the trace equivalence -/
+theorem relhist_demo_traces_equiv : type_of% @Ark.Props.C16Rel.demo_traces_equiv := @Ark.Props.C16Rel.demo_traces_equiv
+
+/-- finding: a forged handle with generation `MaxUint32` as relation target of a query is accepted in the reset world and rejected on a new one (no issued handle has that generation) -/
+theorem relhist_forged_sentinel_target_differs : type_of% @Ark.Props.C16Rel.forged_sentinel_target_differs := @Ark.Props.C16Rel.forged_sentinel_target_differs
+
+/-- finding: the boolean result of `Shrink` depends on capacities, which persist over `Reset`; it is not part of the trace -/
+theorem relhist_shrink_result_differs : type_of% @Ark.Props.C16Rel.shrink_result_differs := @Ark.Props.C16Rel.shrink_result_differs
+
 
 end Ark.Props.C16
